@@ -27,6 +27,8 @@ def members(tier):
         seeds = [1, 2] if tier == 'quick' else [1, 2, 3, 4, 5]
         for lang in F.LANGS:
             ms += F.generated(lang, seeds)
+        from vlib import templates
+        ms += templates.all_templates()
         _BASE[key] = [n for n, _ in ms]
         for n, p in ms:
             _BYTES[n] = pickle.dumps(p)
